@@ -44,6 +44,7 @@ fn closure_case(n: usize, stop: Option<usize>, entry: Entry, rep: &mut Report) {
     let mut calls_after_stop = 0usize;
     let mut stopped = false;
     let ret: Option<usize>;
+    let mut rest_in_source: Option<Vec<usize>> = None;
     {
         let mut sink = |it: Item| -> bool {
             if stopped {
@@ -63,7 +64,10 @@ fn closure_case(n: usize, stop: Option<usize>, entry: Entry, rep: &mut Report) {
             Entry::FeedInto => Some(its.into_iter().feed_into(cb)),
             Entry::FeedIntoMut => Some(its.into_iter().feed_into_mut(&mut cb)),
             Entry::Extend => {
-                cb.extend(its);
+                // the source is only lent: what the callback was not offered is still in it afterwards
+                let mut src = its.into_iter();
+                cb.extend(src.by_ref());
+                rest_in_source = Some(src.map(|i| i.seq).collect());
                 None
             }
             Entry::Call => {
@@ -88,6 +92,12 @@ fn closure_case(n: usize, stop: Option<usize>, entry: Entry, rep: &mut Report) {
     let tag = format!("n={} stop={:?} entry={:?}", n, stop, entry);
     if seen != want {
         rep.violation("C15:callback-sequence", &format!("{}: sink saw {:?}, offered prefix is {:?}", tag, seen, want), &tag);
+    }
+    if let Some(rest) = &rest_in_source {
+        let want_rest: Vec<usize> = (want_n..n).collect();
+        if *rest != want_rest {
+            rep.violation("C15:source-item-lost", &format!("{}: after extend() on a borrowed source it still holds {:?}, expected {:?} (items that were never offered must stay in the source)", tag, rest, want_rest), &tag);
+        }
     }
     if calls_after_stop != 0 {
         rep.violation("C15:called-after-stop", &format!("{}: {} calls after the sink returned false", tag, calls_after_stop), &tag);
